@@ -161,8 +161,37 @@ def _setup_case(report_kind):
     return Case("report=%s" % report_kind, build, crosscheck=False)
 
 
+def _setup_solver_case(primary, backup):
+    """which option dictionary gets what: each solver's options are a copy of the caller's; fsolve (as primary or as backup) is asked for its full output in ITS OWN
+    options (that is what _solver_helper unpacks), a given fprime is dropped; the caller's dictionaries are not written to"""
+    def build(cx):
+        import scipy.optimize
+        S = {"newton": NewtonSolver, "fsolve": scipy.optimize.fsolve, None: None}
+        given_p, given_b = {"maxfev": 50, "fprime": "caller's"}, {"xtol": 1e-9}
+        topt = types.SimpleNamespace(report_timestep=3600, hydraulic_timestep=3600)
+        wn = types.SimpleNamespace(options=types.SimpleNamespace(time=topt), sim_time=0, _prev_sim_time=None)
+        sim = cx.obj(WNTRSimulator, _wn=wn, _model=None)
+        cx.target(WNTRSimulator._setup_sim_options, sim, S[primary], S[backup], given_p, given_b, True)
+
+        def post(out):
+            if not out.returned:
+                return []
+            po, bo = sim.fields["_solver_options"], sim.fields["_backup_solver_options"]
+            want_p = {"maxfev": 50, "full_output": True} if primary == "fsolve" else {"maxfev": 50, "fprime": "caller's"}
+            want_b = {"xtol": 1e-9, "full_output": True} if backup == "fsolve" else {"xtol": 1e-9}
+            return [("solvers_taken_over", sim.fields["_solver"] is S[primary] and sim.fields["_backup_solver"] is S[backup] and sim.fields["_convergence_error"] is True),
+                    ("primary_options_are_the_caller_s_plus_full_output_for_fsolve", dict(po) == want_p),
+                    ("backup_options_are_the_caller_s_plus_full_output_for_fsolve", dict(bo) == want_b),
+                    ("the_caller_s_dictionaries_are_not_written_to", given_p == {"maxfev": 50, "fprime": "caller's"} and given_b == {"xtol": 1e-9} and po is not given_p and bo is not given_b)]
+        cx.ensure(post)
+    return Case("solver=%s,backup=%s" % (primary, backup), build, crosscheck=False)
+
+
+CONTRACTS.append(Contract("wntr.sim.core:WNTRSimulator._setup_sim_options (solver options)", ["C16"],
+                          [_setup_solver_case(p_, b_) for p_ in ("newton", "fsolve") for b_ in (None, "newton", "fsolve")],
+                          note="what _solver_helper relies on: fsolve is called with full_output in its own options"))
 CONTRACTS.append(Contract("wntr.sim.core:WNTRSimulator._setup_sim_options", ["C16", "C11", "C04", "C10"], [_setup_case(k) for k in ("int", "ALL", "all", "hourly")],
-                          note="NewtonSolver without options; the scipy fsolve branches are not exercised"))
+                          note="NewtonSolver without options (the solver-option branches: own contract above)"))
 
 
 # ---------------------------------------------------------------------------- bounded: failures injected into the real run_sim
